@@ -17,67 +17,67 @@ const pkgGoMC = "github.com/Tnze/go-mc/data/packetid"
 // (go-mc v1.20.2 describes protocol 764 — the only independent protocol table available offline).
 // key: State.Dir/Type ; value: go-mc constant name. One row per shared packet type.
 var gomc764 = map[string]string{
-	"Login.ClientBound/packet.Disconnect":         "ClientboundLoginDisconnect",
-	"Login.ClientBound/packet.EncryptionRequest":  "ClientboundLoginEncryptionRequest",
-	"Login.ClientBound/packet.ServerLoginSuccess": "ClientboundLoginSuccess",
-	"Login.ClientBound/packet.SetCompression":     "ClientboundLoginCompression",
-	"Login.ClientBound/packet.LoginPluginMessage": "ClientboundLoginPluginRequest",
-	"Login.ServerBound/packet.ServerLogin":         "ServerboundLoginStart",
-	"Login.ServerBound/packet.EncryptionResponse":  "ServerboundLoginEncryptionResponse",
-	"Login.ServerBound/packet.LoginPluginResponse": "ServerboundLoginPluginResponse",
-	"Login.ServerBound/packet.LoginAcknowledged":   "ServerboundLoginAcknowledged",
-	"Status.ClientBound/packet.StatusResponse":     "ClientboundStatusResponse",
-	"Status.ClientBound/packet.StatusPing":         "ClientboundStatusPongResponse",
-	"Status.ServerBound/packet.StatusRequest":      "ServerboundStatusRequest",
-	"Status.ServerBound/packet.StatusPing":         "ServerboundStatusPingRequest",
-	"Config.ClientBound/plugin.Message":             "ClientboundConfigCustomPayload",
-	"Config.ClientBound/packet.Disconnect":          "ClientboundConfigDisconnect",
-	"Config.ClientBound/config.FinishedUpdate":      "ClientboundConfigFinishConfiguration",
-	"Config.ClientBound/packet.KeepAlive":           "ClientboundConfigKeepAlive",
-	"Config.ClientBound/packet.PingIdentify":        "ClientboundConfigPing",
-	"Config.ClientBound/config.RegistrySync":        "ClientboundConfigRegistryData",
-	"Config.ClientBound/packet.ResourcePackRequest": "ClientboundConfigResourcePack",
-	"Config.ClientBound/config.ActiveFeatures":      "ClientboundConfigUpdateEnabledFeatures",
-	"Config.ClientBound/config.TagsUpdate":          "ClientboundConfigUpdateTags",
+	"Login.ClientBound/packet.Disconnect":            "ClientboundLoginDisconnect",
+	"Login.ClientBound/packet.EncryptionRequest":     "ClientboundLoginEncryptionRequest",
+	"Login.ClientBound/packet.ServerLoginSuccess":    "ClientboundLoginSuccess",
+	"Login.ClientBound/packet.SetCompression":        "ClientboundLoginCompression",
+	"Login.ClientBound/packet.LoginPluginMessage":    "ClientboundLoginPluginRequest",
+	"Login.ServerBound/packet.ServerLogin":           "ServerboundLoginStart",
+	"Login.ServerBound/packet.EncryptionResponse":    "ServerboundLoginEncryptionResponse",
+	"Login.ServerBound/packet.LoginPluginResponse":   "ServerboundLoginPluginResponse",
+	"Login.ServerBound/packet.LoginAcknowledged":     "ServerboundLoginAcknowledged",
+	"Status.ClientBound/packet.StatusResponse":       "ClientboundStatusResponse",
+	"Status.ClientBound/packet.StatusPing":           "ClientboundStatusPongResponse",
+	"Status.ServerBound/packet.StatusRequest":        "ServerboundStatusRequest",
+	"Status.ServerBound/packet.StatusPing":           "ServerboundStatusPingRequest",
+	"Config.ClientBound/plugin.Message":              "ClientboundConfigCustomPayload",
+	"Config.ClientBound/packet.Disconnect":           "ClientboundConfigDisconnect",
+	"Config.ClientBound/config.FinishedUpdate":       "ClientboundConfigFinishConfiguration",
+	"Config.ClientBound/packet.KeepAlive":            "ClientboundConfigKeepAlive",
+	"Config.ClientBound/packet.PingIdentify":         "ClientboundConfigPing",
+	"Config.ClientBound/config.RegistrySync":         "ClientboundConfigRegistryData",
+	"Config.ClientBound/packet.ResourcePackRequest":  "ClientboundConfigResourcePack",
+	"Config.ClientBound/config.ActiveFeatures":       "ClientboundConfigUpdateEnabledFeatures",
+	"Config.ClientBound/config.TagsUpdate":           "ClientboundConfigUpdateTags",
 	"Config.ServerBound/packet.ClientSettings":       "ServerboundConfigClientInformation",
 	"Config.ServerBound/plugin.Message":              "ServerboundConfigCustomPayload",
 	"Config.ServerBound/config.FinishedUpdate":       "ServerboundConfigFinishConfiguration",
 	"Config.ServerBound/packet.KeepAlive":            "ServerboundConfigKeepAlive",
 	"Config.ServerBound/packet.PingIdentify":         "ServerboundConfigPong",
 	"Config.ServerBound/packet.ResourcePackResponse": "ServerboundConfigResourcePack",
-	"Play.ClientBound/packet.BundleDelimiter":      "BundleDelimiter",
-	"Play.ClientBound/bossbar.BossBar":             "ClientboundBossEvent",
-	"Play.ClientBound/packet.TabCompleteResponse":  "ClientboundCommandSuggestions",
-	"Play.ClientBound/packet.AvailableCommands":    "ClientboundCommands",
-	"Play.ClientBound/plugin.Message":              "ClientboundCustomPayload",
-	"Play.ClientBound/packet.Disconnect":           "ClientboundDisconnect",
-	"Play.ClientBound/packet.KeepAlive":            "ClientboundKeepAlive",
-	"Play.ClientBound/packet.JoinGame":             "ClientboundLogin",
-	"Play.ClientBound/playerinfo.Remove":           "ClientboundPlayerInfoRemove",
-	"Play.ClientBound/playerinfo.Upsert":           "ClientboundPlayerInfoUpdate",
-	"Play.ClientBound/packet.ResourcePackRequest":  "ClientboundResourcePack",
-	"Play.ClientBound/packet.Respawn":              "ClientboundRespawn",
-	"Play.ClientBound/packet.ServerData":           "ClientboundServerData",
-	"Play.ClientBound/title.Actionbar":             "ClientboundSetActionBarText",
-	"Play.ClientBound/title.Subtitle":              "ClientboundSetSubtitleText",
-	"Play.ClientBound/title.Text":                  "ClientboundSetTitleText",
-	"Play.ClientBound/title.Times":                 "ClientboundSetTitlesAnimation",
-	"Play.ClientBound/title.Clear":                 "ClientboundClearTitles",
-	"Play.ClientBound/config.StartUpdate":          "ClientboundStartConfiguration",
-	"Play.ClientBound/chat.SystemChat":             "ClientboundSystemChat",
-	"Play.ClientBound/packet.HeaderAndFooter":      "ClientboundTabList",
-	"Play.ClientBound/packet.PlayerChatCompletion": "ClientboundCustomChatCompletions",
-	"Play.ClientBound/packet.SoundEntityPacket":    "ClientboundSoundEntity",
-	"Play.ClientBound/packet.StopSoundPacket":      "ClientboundStopSound",
-	"Play.ServerBound/chat.ChatAcknowledgement":     "ServerboundChatAck",
-	"Play.ServerBound/chat.SessionPlayerCommand":    "ServerboundChatCommand",
-	"Play.ServerBound/chat.SessionPlayerChat":       "ServerboundChat",
-	"Play.ServerBound/packet.ClientSettings":        "ServerboundClientInformation",
-	"Play.ServerBound/packet.TabCompleteRequest":    "ServerboundCommandSuggestion",
-	"Play.ServerBound/config.FinishedUpdate":        "ServerboundConfigurationAcknowledged",
-	"Play.ServerBound/plugin.Message":               "ServerboundCustomPayload",
-	"Play.ServerBound/packet.KeepAlive":             "ServerboundKeepAlive",
-	"Play.ServerBound/packet.ResourcePackResponse":  "ServerboundResourcePack",
+	"Play.ClientBound/packet.BundleDelimiter":        "BundleDelimiter",
+	"Play.ClientBound/bossbar.BossBar":               "ClientboundBossEvent",
+	"Play.ClientBound/packet.TabCompleteResponse":    "ClientboundCommandSuggestions",
+	"Play.ClientBound/packet.AvailableCommands":      "ClientboundCommands",
+	"Play.ClientBound/plugin.Message":                "ClientboundCustomPayload",
+	"Play.ClientBound/packet.Disconnect":             "ClientboundDisconnect",
+	"Play.ClientBound/packet.KeepAlive":              "ClientboundKeepAlive",
+	"Play.ClientBound/packet.JoinGame":               "ClientboundLogin",
+	"Play.ClientBound/playerinfo.Remove":             "ClientboundPlayerInfoRemove",
+	"Play.ClientBound/playerinfo.Upsert":             "ClientboundPlayerInfoUpdate",
+	"Play.ClientBound/packet.ResourcePackRequest":    "ClientboundResourcePack",
+	"Play.ClientBound/packet.Respawn":                "ClientboundRespawn",
+	"Play.ClientBound/packet.ServerData":             "ClientboundServerData",
+	"Play.ClientBound/title.Actionbar":               "ClientboundSetActionBarText",
+	"Play.ClientBound/title.Subtitle":                "ClientboundSetSubtitleText",
+	"Play.ClientBound/title.Text":                    "ClientboundSetTitleText",
+	"Play.ClientBound/title.Times":                   "ClientboundSetTitlesAnimation",
+	"Play.ClientBound/title.Clear":                   "ClientboundClearTitles",
+	"Play.ClientBound/config.StartUpdate":            "ClientboundStartConfiguration",
+	"Play.ClientBound/chat.SystemChat":               "ClientboundSystemChat",
+	"Play.ClientBound/packet.HeaderAndFooter":        "ClientboundTabList",
+	"Play.ClientBound/packet.PlayerChatCompletion":   "ClientboundCustomChatCompletions",
+	"Play.ClientBound/packet.SoundEntityPacket":      "ClientboundSoundEntity",
+	"Play.ClientBound/packet.StopSoundPacket":        "ClientboundStopSound",
+	"Play.ServerBound/chat.ChatAcknowledgement":      "ServerboundChatAck",
+	"Play.ServerBound/chat.SessionPlayerCommand":     "ServerboundChatCommand",
+	"Play.ServerBound/chat.SessionPlayerChat":        "ServerboundChat",
+	"Play.ServerBound/packet.ClientSettings":         "ServerboundClientInformation",
+	"Play.ServerBound/packet.TabCompleteRequest":     "ServerboundCommandSuggestion",
+	"Play.ServerBound/config.FinishedUpdate":         "ServerboundConfigurationAcknowledged",
+	"Play.ServerBound/plugin.Message":                "ServerboundCustomPayload",
+	"Play.ServerBound/packet.KeepAlive":              "ServerboundKeepAlive",
+	"Play.ServerBound/packet.ResourcePackResponse":   "ServerboundResourcePack",
 }
 
 func init() {
